@@ -42,7 +42,7 @@ ASSUMPTIONS = [
 ]
 REQUIRED = ["op_get_subtree", "op_node_subtree", "op_to_subtree", "op_cut_enter", "op_cut_leave",
             "op_cut_type", "op_cut_order", "op_cut_tip", "op_neurites", "op_dendrites",
-            "transform_instance_reused",
+            "transform_instance_reused", "numpy_scalar_node_ids",
             "mappings_checked", "tip_exact_threshold_cases", "exhaustive_subsets",
             "tap_to_sub_topology", "tap_propagate_removal", "tap_get_subtree_impl"]
 FLOOR = {"quick": 2500, "thorough": 50000}
@@ -120,19 +120,29 @@ def _closure(ch, removed):
     return gone
 
 
+def _as_index(ctx, v, salt):
+    """The same node id as a Python int or a numpy integer scalar (callers use both)."""
+    k = salt % 4
+    if k:
+        ctx.count("numpy_scalar_node_ids")
+    return [int(v), np.int32(v), np.int64(v), np.intp(v)][k]
+
+
 # ------------------------------------------------------------------ operations
 def _op_subtree(ctx, case, spec, tree, node_api):
     from swcgeom.core import get_subtree
 
     v = case["node"]
+    vv = _as_index(ctx, v, case.get("tree", {}).get("seed", 0) + v)  # int, np.int32, np.int64 ...
     ch = topo.children_lists(spec["pid"])
     mk = case.get("mapping", "list")
     m = [] if mk == "list" else ({} if mk == "dict" else None)
     if node_api:
-        out = tree.node(v).subtree(out_mapping=m) if m is not None else tree.node(v).subtree()
+        nd = tree.node(vv) if (v % 3) else tree[v - len(spec["pid"])]  # also from the end
+        out = nd.subtree(out_mapping=m) if m is not None else nd.subtree()
         ctx.count("op_node_subtree")
     else:
-        out = get_subtree(tree, v, out_mapping=m) if m is not None else get_subtree(tree, v)
+        out = get_subtree(tree, vv, out_mapping=m) if m is not None else get_subtree(tree, vv)
         ctx.count("op_get_subtree")
     _compare(ctx, case, spec, out, topo.descendants(ch, v), int(spec["tag"][v]),
              "Node.subtree" if node_api else "get_subtree", m, mk if m is not None else None)
